@@ -219,7 +219,14 @@ routine:
 			break routine
 		}
 		conn.maintainKeepalive()
-		conn.recvCh <- data
+		// the reader of recvCh may be gone (its context is cancelled with the pool's): without
+		// watching the context this send blocks forever once the queue is full, waitStop then
+		// never returns and the pool lock held around it (removeCollector) is never released.
+		select {
+		case conn.recvCh <- data:
+		case <-conn.ctx.Done():
+			break routine
+		}
 	}
 }
 
